@@ -58,7 +58,7 @@ def generate(r, tier):
                 lines.append(kgen.handwritten(r, prog, maxn=1))
         hand.append("".join(lines))
     sc["hand"] = hand
-    sc["ops"] = ops.gen_history(r, prog, r.randint(3, 30), weights={"member_bias": 0.55, "load_hand": 6, "set": 45, "cunset": 5}, hand_n=len(hand))
+    sc["ops"] = ops.gen_history(r, prog, r.randint(3, 30), weights={"member_bias": 0.55, "load_hand": 6, "set": 45, "cunset": 5, "dance": 9}, hand_n=len(hand))
     sc["checkpoints"] = sorted(r.sample(range(len(sc["ops"]) + 1), min(len(sc["ops"]) + 1, r.randint(1, 3))))
     return sc
 
